@@ -170,6 +170,37 @@ def single_world(case):
     return evals, len(answers), known
 
 
+def resized_world_case(case):
+    """A world whose extents are enlarged after construction (its public width / height): agents placed or moved into
+    the new territory are found there like anywhere else."""
+    reset_library()
+    model = new_model(seed=1)
+    env = model.environment = Envs.SpaceWorld(model, 4, 3, 0, wrap_env=case['wrap'])
+    first = Core.Agent('first', model)
+    env.add_agent(first, 1, 1, 0)
+    if env.get_agents_at(1, 1, 0, 0.5) != [first]:
+        raise Violation('query before the world was enlarged')
+    env.width, env.height = 9, 6
+    second = Core.Agent('second', model)
+    env.add_agent(second, 7.5, 4.5, 0)
+    env.move_to(first, 8, 5, 0)
+    q = 0
+    where = [(first, (8, 5, 0)), (second, (7.5, 4.5, 0))]
+    for qp in ((7.5, 4.5, 0), (8, 5, 0), (6, 4, 0), (7, 4, 0), (1, 1, 0), (8.5, 5.5, 0), (9, 6, 0), (5, 3.5, 0)):
+        for lw in (0, 0.5, 1, 3):
+            got = env.get_agents_at(qp[0], qp[1], qp[2], lw)
+            q += 1
+            want = [a for a, p in where if box_match(p, qp, (lw, 0, 0, 0), [9, 6, 0], False, False)]
+            if case['wrap']:
+                if not set(map(id, want)) <= set(map(id, got)):      # seam handling is finding F5's subject
+                    raise Violation(f'world enlarged from 4x3 to 9x6 after construction: query {qp} leeway {lw} misses an '
+                                    f'agent inside the plain box', expected=[a.id for a in want], observed=[a.id for a in got])
+            elif got != want:
+                raise Violation(f'world enlarged from 4x3 to 9x6 after construction: query {qp} leeway {lw}',
+                                expected=[a.id for a in want], observed=[a.id for a in got])
+    return q
+
+
 def nan_case(case):
     """Not-a-number coordinates: an agent whose position is NaN on some axis is inside no box, and a query point with
     a NaN coordinate has nobody inside its box (every comparison with NaN is false)."""
@@ -248,7 +279,13 @@ def crowd_case(case):
             p = ((i % 39) * 0.1 + 0.05, (i % 7) * 0.3 + 0.1, 0.0 if d3[2] == 0 else (i % 3) * 0.7)
         else:
             p = (i % d3[0], (i // d3[0]) % d3[1], 0 if d3[2] == 0 else (i // (d3[0] * d3[1])) % d3[2])
-        a = Core.Agent(f'c{i}', model)
+        if i % 5 == 4 and not huge:
+            # an agent whose CLASS carries a class-level position (the herd's home): not where the agent is
+            Homed = type('Homed', (Core.Agent,), {})
+            Homed.add_class_component(Envs.PositionComponent(Homed, model, 1, 1, 0))
+            a = Homed(f'c{i}', model)
+        else:
+            a = Core.Agent(f'c{i}', model)
         if i % 2:      # attached before the agent is placed: some other point, never the agent's position
             a.add_component(Waypoint(a, model, 0, 0, 0))
         env.add_agent(a, *p[:nargs])
@@ -477,13 +514,14 @@ def run(ctx):
              for n in ((3, 70) if not full else (3, 10, 70, 150))]
     extra += [{'leg': 'crowd', 'world': 'space4x3x0', 'n': 60, 'huge': True}]
     extra += [{'leg': 'replaced_world', 'new': nw, 'via': via} for nw in ('space', 'grid') for via in ('set', 'assign')]
+    extra += [{'leg': 'resized_world', 'wrap': False}, {'leg': 'resized_world', 'wrap': True}]
     extra += [{'leg': 'nan', 'world': wn, 'wrap': wr} for wn in ('space4x3x0', 'grid4x3', 'disc4x3x2') for wr in (False, True)]
     for case in extra:
         if ctx.violations:
             break
         ctx.traces += 1
         try:
-            ctx.transitions += hbfs._guard({'crowd': crowd_case, 'nan': nan_case}.get(case['leg'], replaced_world_case), case)
+            ctx.transitions += hbfs._guard({'crowd': crowd_case, 'nan': nan_case, 'resized_world': resized_world_case}.get(case['leg'], replaced_world_case), case)
         except Violation as v:
             ctx.report(case, v)
     ctx.leg('crowd_and_replaced_world', cases=len(extra))
@@ -510,6 +548,8 @@ def replay(case):
         hbfs._guard(replaced_world_case, case)
     elif case['leg'] == 'nan':
         hbfs._guard(nan_case, case)
+    elif case['leg'] == 'resized_world':
+        hbfs._guard(resized_world_case, case)
     elif case['leg'] == 'single':
         evals, answers, known = hbfs._guard(single_world, case)
         if known is not None:
